@@ -307,6 +307,11 @@ func countTxs(e *core.Engine, st *core.Step) {
 			res = "fail"
 		}
 		e.Stats.Txs[kind+":"+res]++
+		// reach of the generators' special variants (labels with a '/'): how often each was delivered and how
+		// it was answered; evidence only, never part of a verdict
+		if st != nil && i < len(st.Labels) && strings.Contains(st.Labels[i], "/") && len(att.TxBytes) == len(st.Labels) {
+			e.Stats.Probes["variant "+st.Labels[i]+":"+res]++
+		}
 	}
 }
 
